@@ -311,6 +311,13 @@ struct Checker {
             if (i >= bottom_calls) run.add(cn.upper_calls);
             if (!check_maximality(c, cs)) return;
         }
+        {   // the finished bottom level: strictly increasing segment keys (no redundant twin of a segment), and no more segments than the
+            // builder emitted plus the single closing segment build() may append
+            size_t cnt = idx->segments_count(), builder_segments = 0;
+            for (size_t i = 0; i < bottom_calls; ++i) builder_segments += verif::calls[i].seg_starts.size();
+            for (size_t i = 1; i < cnt; ++i) if (!(idx->segments[i - 1].key < idx->segments[i].key)) { run.violation(cs, "bottom-level segment keys are not strictly increasing: segment " + std::to_string(i) + " starts at the same key as its predecessor (redundant segment)"); delete idx; return; }
+            if (cnt > builder_segments + 1) { run.violation(cs, "segments_count() " + std::to_string(cnt) + " exceeds the " + std::to_string(builder_segments) + " segments the builder emitted plus one closing segment"); delete idx; return; }
+        }
         if (idx->segments_count() > n / (2 * E + 1) + bottom_calls + 1)
             run.violation(cs, "segments_count() " + std::to_string(idx->segments_count()) + " exceeds floor(n/(2*eps+1)) + c + 1 with c=" + std::to_string(bottom_calls));
         delete idx;
@@ -406,6 +413,7 @@ void dispatch(Run &run, Cn &cn, int prop, const Task &t) {
         case 0: run_task<uint8_t>(run, cn, prop, t); break;
         case 3: run_task<int16_t>(run, cn, prop, t); break;
         case 4: run_task<uint32_t>(run, cn, prop, t); break;
+        case 5: run_task<int32_t>(run, cn, prop, t); break;
         case 6: run_task<uint64_t>(run, cn, prop, t); break;
         case 7: run_task<int64_t>(run, cn, prop, t); break;
         case 8: run_task<float>(run, cn, prop, t); break;
@@ -429,7 +437,7 @@ int main(int argc, char **argv) {
         for (int i = 0; i < 10; ++i) if (m["key"] == names[i]) t.key = i;
         switch (t.key) {
             case 0: Checker<uint8_t>{run, cn, prop}.replay(m); break; case 3: Checker<int16_t>{run, cn, prop}.replay(m); break;
-            case 4: Checker<uint32_t>{run, cn, prop}.replay(m); break; case 6: Checker<uint64_t>{run, cn, prop}.replay(m); break;
+            case 4: Checker<uint32_t>{run, cn, prop}.replay(m); break; case 5: Checker<int32_t>{run, cn, prop}.replay(m); break; case 6: Checker<uint64_t>{run, cn, prop}.replay(m); break;
             case 7: Checker<int64_t>{run, cn, prop}.replay(m); break; case 8: Checker<float>{run, cn, prop}.replay(m); break;
             case 9: Checker<double>{run, cn, prop}.replay(m); break;
         }
@@ -440,7 +448,7 @@ int main(int argc, char **argv) {
 
     int N = thorough ? 10 : 8;
     if (opt.extra.count("N")) N = atoi(opt.extra["N"].c_str());
-    std::vector<int> keys = prop == 3 ? std::vector<int>{4, 6, 7, 8, 9, 0, 3} : std::vector<int>{4, 6, 7, 0, 3};
+    std::vector<int> keys = prop == 3 ? std::vector<int>{4, 5, 6, 7, 8, 9, 0, 3} : std::vector<int>{4, 5, 6, 7, 0, 3};
     std::vector<size_t> epss = {0, 1, 2, 3};
     std::vector<Task> tasks;
     for (int len = 1; len <= N; ++len)
@@ -503,7 +511,7 @@ int main(int argc, char **argv) {
     mc::Run::EvidenceExtra ev;
     ev.states_counter = "arrays_segmented"; ev.transitions_counter = prop == 3 ? "point_vs_line_checks" : "maximality_checks_against_exact_oracle";
     ev.nontrivial_counter = "arrays_with_2plus_distinct_keys";
-    ev.rule = std::string("every non-decreasing key sequence of length 1..") + std::to_string(N) + " over each 10-value palette, key types u32/u64/i64/u8/i16" + (prop == 3 ? "/float/double" : "") +
+    ev.rule = std::string("every non-decreasing key sequence of length 1..") + std::to_string(N) + " over each 10-value palette, key types u32/i32/u64/i64/u8/i16" + (prop == 3 ? "/float/double" : "") +
               ", epsilon 0..3, fed to make_segmentation; seam-window family (n=2^15(+delta), all 4096 six-letter words over {dup,+1,+2,+65536} at every chunk seam) through make_segmentation_par with the chunk count answered by the harness; block grammar (1 block x rep, 2 blocks) for epsilon in {1,8,64" + (thorough ? ",1024" : "") + "}. " +
               (prop == 3 ? "Each point recorded by hook H1 is evaluated against the line reported for its segment (exact 128-bit rational arithmetic for integer keys, long double + stated tolerance for floating keys). "
                          : "Each builder call's partition is compared with the greedy partition computed by an exact rational stabbing-line oracle (pairwise slope bounds), plus the optimum count, the 2*epsilon spacing of segment starts, and every upper-level call inside PGMIndex builds. ") +
